@@ -491,6 +491,44 @@ def replay_real(case):
                 bad.append(f'block name {nm!r} accepted')
             except ValueError:
                 pass
+    elif ctx == 'authors':
+        people = [cif.Person(name=f'N{i}', corresponding=(c == 'True'), role=(f'{r}{i}' if r != 'None' else None)) for i, (c, r) in enumerate(case['flags'])]
+        c_ = cif.CIF('blk').with_authors(*people)
+        f = io.StringIO()
+        for it in c_._assemble_authors():
+            it.write(f)
+            f.write('\n')
+        toks = [t_ for t_ in cif_lex(f.getvalue()) if t_[0] != 'comment']
+        # independent re-read: tag/value pairs and loops
+        cols, i = {}, 0
+        while i < len(toks):
+            k, v = toks[i]
+            if k == 'loop':
+                tags, i = [], i + 1
+                while i < len(toks) and toks[i][0] == 'tag':
+                    tags.append(toks[i][1])
+                    i += 1
+                vals = []
+                while i < len(toks) and toks[i][0] == 'value':
+                    vals.append(toks[i][1])
+                    i += 1
+                for j, tg in enumerate(tags):
+                    cols.setdefault(tg, []).extend(vals[j::len(tags)])
+            elif k == 'tag' and i + 1 < len(toks) and toks[i + 1][0] == 'value':
+                cols.setdefault(v, []).append(toks[i + 1][1])
+                i += 2
+            else:
+                bad.append(f'unexpected token {toks[i]}')
+                break
+        ids = [x for tg, v in cols.items() if tg.endswith('author.id') for x in v]
+        role_ids = cols.get('_audit_author_role.id', [])
+        if len(set(ids)) != len(ids):
+            bad.append(f'author ids not distinct: {ids}')
+        if not set(role_ids) <= set(ids):
+            bad.append(f'role ids {role_ids} not among author ids {ids}')
+        n_roles = sum(1 for _, r in case['flags'] if r != 'None')
+        if len(role_ids) != n_roles:
+            bad.append(f'{len(role_ids)} role rows for {n_roles} authors with roles')
     else:
         return {'reproduced': False, 'detail': 'no replay for this case kind'}
     return {'reproduced': bool(bad), 'detail': '; '.join(bad[:2])}
